@@ -403,8 +403,11 @@ def topological_sort(nodes):
     known = set(x + y for x in "uir" for y in ["8", "16", "32", "64"])
     available = set(node.name for node in nodes)
     for index in range(len(nodes)):
+        rotations = 0
         while model_sort_rotate():
-            pass
+            rotations += 1
+            if rotations > len(nodes):
+                raise ModelError("cyclic dependency of '%s'" % nodes[index].name)
 
 
 def _make_types_index(nodes_):
